@@ -27,6 +27,7 @@ func init() {
 		c.R.NotDecided = append(c.R.NotDecided, "numerical exactness of the PTS / NTP mapping; placement of late tracks on the leading track's timeline (value level)")
 		ringTypeRule(c, "C15/DELTA-TYPE", []string{"pkg/rtptime", "pkg/rtpreceiver", "pkg/rtpsender", "pkg/ntp"}, 2)
 		anchorGuardRule(c)
+		anchorLeaderRule(c)
 		anchorTupleRule(c)
 		c15Lock(c)
 	}
@@ -1065,5 +1066,99 @@ func c14WrapPair(c *Ctx, rule string) {
 	}
 	if n == 0 {
 		r.Fail(rule, "cycle test", "", "no cycle test of the form seq(packet) - last found guarding a counter increment: the anchor (sequenceNumberCycles in ProcessPacket2) moved")
+	}
+}
+
+// anchorLeaderRule (C15/ANCHOR-LEADER; added after seeded change C15-r4m1): GlobalDecoder.startPTS is
+// expressed in the clock of the leading track (startPTSClockRate is written once, with the leader). A store
+// to startPTS is therefore reached only where the track at hand is known to be the leader (true edge of
+// leadingTrack == track), or it rewrites the whole correspondence (leadingTrack and startPTSClockRate in
+// the same block). Written by another track, the value is in another clock and every track that starts
+// later is placed wrongly.
+func anchorLeaderRule(c *Ctx) {
+	p, r := c.P, c.R
+	r.Rule("C15/ANCHOR-LEADER", "every store to GlobalDecoder.startPTS is reached only through the true edge of `leadingTrack == track`, or sits in a block that also stores leadingTrack and startPTSClockRate: startPTS is a value in the leading track's clock rate, and a store on behalf of another track pairs it with the wrong rate", 2)
+	f := p.Field("pkg/rtptime", "GlobalDecoder", "startPTS")
+	lead := p.Field("pkg/rtptime", "GlobalDecoder", "leadingTrack")
+	rate := p.Field("pkg/rtptime", "GlobalDecoder", "startPTSClockRate")
+	if !r.Anchor("C15/ANCHOR-LEADER", "rtptime.GlobalDecoder.{startPTS,leadingTrack,startPTSClockRate}", f != nil && lead != nil && rate != nil) {
+		return
+	}
+	n := 0
+	for _, a := range p.FieldAccesses(f) {
+		st, ok := a.Instr.(*ssa.Store)
+		if !ok || !a.Write {
+			continue
+		}
+		n++
+		construct := fmt.Sprintf("%s stores startPTS #%d", fnShort(a.Fn), n)
+		// whole correspondence rewritten in this block?
+		hasLead, hasRate := false, false
+		for _, in := range st.Block().Instrs {
+			if s2, ok := in.(*ssa.Store); ok {
+				if fa, ok := s2.Addr.(*ssa.FieldAddr); ok {
+					switch core.FieldOfAddr(fa) {
+					case lead:
+						hasLead = true
+					case rate:
+						hasRate = true
+					}
+				}
+			}
+		}
+		if hasLead && hasRate {
+			r.OK("C15/ANCHOR-LEADER", construct, p.Pos(st.Pos()), "leader, rate and anchor written together")
+			continue
+		}
+		isLeadLoad := func(v ssa.Value) bool {
+			for {
+				switch x := v.(type) {
+				case *ssa.MakeInterface:
+					v = x.X
+					continue
+				case *ssa.ChangeInterface:
+					v = x.X
+					continue
+				}
+				break
+			}
+			u, ok := v.(*ssa.UnOp)
+			if !ok || u.Op != token.MUL {
+				return false
+			}
+			fa, ok := u.X.(*ssa.FieldAddr)
+			return ok && core.FieldOfAddr(fa) == lead
+		}
+		passing := func(x, y *ssa.BasicBlock) bool {
+			iff, ok := x.Instrs[len(x.Instrs)-1].(*ssa.If)
+			if !ok || len(x.Succs) != 2 || x.Succs[0] == x.Succs[1] {
+				return false
+			}
+			bo, ok := iff.Cond.(*ssa.BinOp)
+			if !ok || (bo.Op != token.EQL && bo.Op != token.NEQ) {
+				return false
+			}
+			if !isLeadLoad(bo.X) && !isLeadLoad(bo.Y) {
+				return false
+			}
+			other := bo.Y
+			if isLeadLoad(bo.Y) {
+				other = bo.X
+			}
+			if isNilConst(other) {
+				return false
+			}
+			passed := x.Succs[0]
+			if bo.Op == token.NEQ {
+				passed = x.Succs[1]
+			}
+			return y == passed
+		}
+		found, path, _ := core.PathAvoidingE(a.Fn, nil, func(in ssa.Instruction) bool { return in == ssa.Instruction(st) }, nil, passing)
+		if found {
+			r.FailPath("C15/ANCHOR-LEADER", construct, p.Pos(st.Pos()), "startPTS is written on a route where the track is not known to be the leading one: the value is in that track's clock while startPTSClockRate stays the leader's", core.BlockPath(p, a.Fn, path))
+		} else {
+			r.OK("C15/ANCHOR-LEADER", construct, p.Pos(st.Pos()), "reached only through the true edge of leadingTrack == track")
+		}
 	}
 }
